@@ -213,6 +213,8 @@ reg("C03", c03_units,
 def c04_units(tier):
     us = [
         Unit("claim-atomic", HSFS, "zzC04_ClaimAtomic", dict(FSFLAGS, only="C04/"), bounds="clean log of <=2 arbitrary events; claim (2 events) killed between any two system calls (no torn write: that is C03's fault model)"),
+        Unit("set-atomic", HSFS, "zzC04_SetAtomic", dict(FSFLAGS, only="C04/"), bounds="clean log of <=1 arbitrary event; set title+body (2 events) on any id, killed between any two system calls"),
+        Unit("prune-atomic", HSFS, "zzC04_PruneAtomic", dict(FSFLAGS, only="C04/"), bounds="clean log of <=2 arbitrary events; prune --yes (one tombstone per target) killed between any two system calls"),
     ]
     us.append(Unit("plan-atomic", HSFS, "zzC04_PlanAtomic", dict(FSFLAGS, only="C04/"), bounds="clean log of <=1 event (possibly empty); plan of 1 task through temp file + rename, killed at any effect, stale temp file possible"))
     return us
@@ -348,7 +350,7 @@ def c18_units(tier):
                            bounds="store holding %s (each present file: <=1 arbitrary event), lock file present or absent, stale temp file or not; %s through the real lock/read/write path" % (txt, n)))
     fr = {"loop": 16, "rec": 3, "only": "C18/"}
     for n, txt in (("Cwd", "no --dir (working directory)"), ("AbsY", "--dir <root>/x/y"), ("AbsX", "--dir <root>/x"), ("AbsRoot", "--dir <root>"), ("AbsErgo", "--dir <root>/x/.ergo (the .ergo directory itself)"),
-                   ("AbsDotDot", "--dir <root>/x/y/../y"), ("RelY", "--dir y"), ("RelDot", "--dir ."), ("RelDotDot", "--dir .."), ("RelErgo", "--dir .ergo"), ("RelYSlash", "--dir ./y/")):
+                   ("AbsDotDot", "--dir <root>/x/y/../y"), ("AbsParent", "--dir <root>/x/y/.."), ("AbsParentSlash", "--dir <root>/x/y/../"), ("RelParentOfY", "--dir y/.."), ("RelY", "--dir y"), ("RelDot", "--dir ."), ("RelDotDot", "--dir .."), ("RelErgo", "--dir .ergo"), ("RelYSlash", "--dir ./y/")):
         us.append(Unit("resolve-" + n.lower(), HS18, "zzC18_Resolve_" + n, fr, bounds="skeleton <root>/x/y, working directory <root>/x, each of the 3 directories holds a .ergo directory or not (8 layouts, symbolic); start spelling: " + txt))
     for n in ("RelY", "RelDotDot", "AbsY"):
         us.append(Unit("resolve-where-" + n.lower(), HS18, "zzC18_ResolveWhere_" + n, fr, bounds="same skeleton; the discovery call `where` makes (resolveErgoDir on the raw --dir value); spelling " + n))
@@ -357,9 +359,9 @@ def c18_units(tier):
 
 
 reg("C18", c18_units,
-    "bounded symbolic model checking on the L0 file model extended with the legacy events.jsonl: for each store configuration (case split: neither / plans only / legacy only / both; lock and temp file symbolic) and each mutating command, the real getEventsPath picks the same file before and after, the other log file sees no create/write/rename, the store stays readable and the next read sees the command's effect, and a missing lock file does not make a valid command fail; init on any configuration changes no item, hides none, rewrites no existing log and is idempotent. Directory discovery: the real ergoDir/resolveErgoDir over a 3-level directory skeleton whose .ergo directories exist symbolically (os.Stat model), for 11 spellings of the start directory (absolute, relative, with .., the .ergo directory itself, none), against 'deepest enclosing .ergo of the directory the spelling names'.",
+    "bounded symbolic model checking on the L0 file model extended with the legacy events.jsonl: for each store configuration (case split: neither / plans only / legacy only / both; lock and temp file symbolic) and each mutating command, the real getEventsPath picks the same file before and after, the other log file sees no create/write/rename, the store stays readable and the next read sees the command's effect, and a missing lock file does not make a valid command fail; init on any configuration changes no item, hides none, rewrites no existing log and is idempotent. Directory discovery: the real ergoDir/resolveErgoDir over a 3-level directory skeleton whose .ergo directories exist symbolically (os.Stat model), for 14 spellings of the start directory (absolute, relative, with .., the .ergo directory itself, none), against 'deepest enclosing .ergo of the directory the spelling names'.",
     FS_ASSUME + ["paths are atoms: <root>/.ergo and Join(dir, name) are injective uninterpreted functions; os.MkdirAll succeeds",
-                 "discovery: path spellings are enumerated (11), not symbolic strings; filepath.Join/Dir/Base/Abs are computed on those literals by the Go library itself; symlinks, .ergo being a regular file, and permission errors are outside the claim",
+                 "discovery: path spellings are enumerated (14), not symbolic strings; filepath.Join/Dir/Base/Abs are computed on those literals by the Go library itself; symlinks, .ergo being a regular file, and permission errors are outside the claim",
                  "read-only commands (list/show) use the same loadGraph -> getEventsPath path as the post-command read in these units"])
 
 
